@@ -1,7 +1,6 @@
 package socks
 
 import (
-	"bufio"
 	"io"
 	"encoding/binary"
 	"errors"
@@ -62,6 +61,23 @@ type SocksHeader struct {
 	Port     uint16
 }
 
+// connReader takes exactly the bytes that are asked for from the connection. A buffered
+// reader would also swallow whatever the client sent behind the current message (the
+// request behind the greeting, payload behind the request) and lose it when discarded.
+type connReader struct {
+	conn net.Conn
+}
+
+func (r connReader) ReadByte() (byte, error) {
+	var b [1]byte
+	_, err := io.ReadFull(r.conn, b[:])
+	return b[0], err
+}
+
+func (r connReader) Read(p []byte) (int, error) {
+	return io.ReadFull(r.conn, p)
+}
+
 type NegotiationHeader struct {
 	Version  byte
 	NMethods byte
@@ -71,7 +87,7 @@ type NegotiationHeader struct {
 func SubNegotiationClient(conn net.Conn) (NegotiationHeader, error) {
 	var (
 		header     NegotiationHeader
-		reader     = bufio.NewReader(conn)
+		reader     = connReader{conn}
 		err        error
 		NumMethods byte
 	)
@@ -115,7 +131,7 @@ func SubNegotiationClient(conn net.Conn) (NegotiationHeader, error) {
 func ReadSocksHeader(conn net.Conn) (SocksHeader, error) {
 	var (
 		header SocksHeader
-		reader = bufio.NewReader(conn)
+		reader = connReader{conn}
 		err    error
 	)
 
